@@ -164,8 +164,11 @@ class LoopRecorder:
     err_script / upd_script: optional callables replacing the real functions (scripted environment).
     """
 
+    MAX_SAME_START = 400      # watchdog: trials starting at the same time without ever being accepted
+
     def __init__(self, bm=None, err_script=None, upd_script=None, max_trials=None):
         self.events = []
+        self._starts = {}
         self.bm = bm
         self.err_script = err_script
         self.upd_script = upd_script
@@ -200,6 +203,10 @@ class LoopRecorder:
             inner_step = solver.step
 
             def step(t0, t1, y, extra):
+                k = float(t0)
+                rec._starts[k] = rec._starts.get(k, 0) + 1
+                if rec._starts[k] > 2 * rec.MAX_SAME_START + 2:      # a trial makes two step calls from its start
+                    raise WatchdogExpired(f"more than {rec.MAX_SAME_START} trials from t={k} without an accepted step")
                 nq0 = len(rec.bm.log) if rec.bm is not None else 0
                 y1, extra1 = inner_step(t0, t1, y, extra)
                 nq1 = len(rec.bm.log) if rec.bm is not None else 0
@@ -791,7 +798,7 @@ def c12_group(job):
     spec_q = behs[0]["queries"]
     grid_u = sorted({min(k * d, T) for k in range(0, (T + d - 1) // d + 1)})
     grid_ts = tm.ts(grid_u)
-    bm = p.bm(grid_ts[0], grid_ts[-1])
+    bm = p.bm(grid_ts[0], grid_ts[-1], max_calls=64)
     try:
         ys_grid = p.sdeint(grid_ts, tm.dt(d), bm)
     except Exception as e:  # noqa
@@ -802,9 +809,11 @@ def c12_group(job):
     keys.append((f"{cfg_key(c)}|d={d}|T={T}|grid", None))
     memo = {}
     for bi, beh in enumerate(behs):
+        if len(fails) >= 8:
+            break                                   # enough evidence from this group; keep a broken tree fast
         ts_u = beh["ts"]
         ts_f = tm.ts(ts_u)
-        bm = p.bm(ts_f[0], ts_f[-1])
+        bm = p.bm(ts_f[0], ts_f[-1], max_calls=64)
         want_trace = bi in job["trace_idx"]
         try:
             if want_trace:
@@ -890,16 +899,18 @@ def c13_group(job):
                            rs=beh["rs"], same_brownian_object=same_obj)))
 
     for n, beh in enumerate(job["behs"]):
+        if len(fails) >= 8:
+            break
         ts_u, rs, d = beh["ts"], set(beh["rs"]), beh["d"]
         ts_f = tm.ts(ts_u)
         same_obj = (n + job["gi"]) % 2 == 0
         # solvers without extra state: alternate between passing the returned () and omitting it
         pass_extra = True if c["has"] else (n % 3 != 0)
         try:
-            bm1 = p.bm(ts_f[0], ts_f[-1])
+            bm1 = p.bm(ts_f[0], ts_f[-1], max_calls=128)
             ys1, ex1 = p.sdeint(ts_f, tm.dt(d), bm1, extra=True)
             nq1 = len(bm1.log)
-            bm2 = bm1 if same_obj else p.bm(ts_f[0], ts_f[-1])
+            bm2 = bm1 if same_obj else p.bm(ts_f[0], ts_f[-1], max_calls=128)
             ys2, ex2, nchunks = chunked_run(p, tm, ts_u, rs, d, bm2, pass_extra=pass_extra)
         except Exception as e:  # noqa
             fail("exception", f"ts={ts_u} rs={sorted(rs)}: {type(e).__name__}: {e}", beh, same_obj)
